@@ -207,6 +207,10 @@ static int32 pkcs8parse_unknown(
 
     @return < 0 on error, private keysize in bytes on success.
  */
+#  ifndef PKCS8_MAX_ITERATIONS
+/* Upper bound for the PBKDF2 iteration count taken from a PKCS#8 file */
+#   define PKCS8_MAX_ITERATIONS 100000
+#  endif
 psRes_t psPkcs8ParsePrivBin(psPool_t *pool,
                             const unsigned char *buf, psSizeL_t size,
     char *pass, psPubKey_t *key)
@@ -286,7 +290,8 @@ psRes_t psPkcs8ParsePrivBin(psPool_t *pool,
         /* Get the PBKDF2 Salt */
         Memcpy(salt, p, 8); p += 8;
         /* Get the PBKDF2 Iteration count (rounds) */
-        if (getAsnInteger(&p, (int32) (end - p), &icount) < 0)
+        if (getAsnInteger(&p, (int32) (end - p), &icount) < 0 ||
+            icount < 1 || icount > PKCS8_MAX_ITERATIONS)
         {
             psTraceCrypto("Couldn't parse PKCS#8 param iterationCount\n");
             return PS_FAILURE;
